@@ -62,6 +62,29 @@ CONFIGS = {
     "t13c_12s":         ([], "cv=3,4 sv=3"),
     "t12c_13s":         ([], "cv=3 sv=3,4"),
     "t12_ocsp":         ([], "cv=3 sv=3 key=ec suite=c02b ocsp=1"),
+    # a resumption OFFER the server declines (external PSK it does not know; ticket sealed under keys it no longer has; session id
+    # its cache no longer holds): the full handshake of the mode follows - what the server expects after its flight must depend on
+    # what was SELECTED, not on what was offered - crossed with client authentication and HelloRetryRequest; and the accepted
+    # offers crossed with a server that would otherwise ask for a certificate
+    "t13_pskdecl":          ([], "cv=4 sv=4 psk13=2"),
+    "t13_pskdecl_cauth":    ([], "cv=4 sv=4 psk13=2 cauth=1 scb=1"),
+    "t13_pskdecl_hrr":      ([], "cv=4 sv=4 psk13=2 cgrp=29,23,24 nshare=1 sgrp=23"),
+    "t13_pskdecl_cauth_hrr": ([], "cv=4 sv=4 psk13=2 cauth=1 scb=1 cgrp=29,23,24 nshare=1 sgrp=23"),
+    "t13_tickdecl":         (["new cv=4 sv=4 ticket=1", "mrun"], "cv=4 sv=4 ticket=1 resume=1 decline=1 seed=3"),
+    "t13_tickdecl_cauth":   (["new cv=4 sv=4 ticket=1 cauth=1 scb=1", "mrun"], "cv=4 sv=4 ticket=1 cauth=1 scb=1 resume=1 decline=1 seed=3"),
+    "t13_tickdecl_cauth_hrr": (["new cv=4 sv=4 ticket=1 cauth=1 scb=1", "mrun"], "cv=4 sv=4 ticket=1 cauth=1 scb=1 resume=1 decline=1 seed=3 cgrp=29,23,24 nshare=1 sgrp=23"),
+    "t13_psk_cauth":        ([], "cv=4 sv=4 psk13=1 cauth=1 scb=1"),
+    "t13_psk_hrr":          ([], "cv=4 sv=4 psk13=1 cgrp=29,23,24 nshare=1 sgrp=23"),
+    "t13_psk_cauth_hrr":    ([], "cv=4 sv=4 psk13=1 cauth=1 scb=1 cgrp=29,23,24 nshare=1 sgrp=23"),
+    "t13_resume_cauth":     (["new cv=4 sv=4 ticket=1 cauth=1 scb=1", "mrun"], "cv=4 sv=4 ticket=1 cauth=1 scb=1 resume=1 keepkeys=1 seed=3"),
+    "t12_iddecl":           (["new cv=3 sv=3", "mrun"], "cv=3 sv=3 resume=1 decline=1 seed=3"),
+    "t12_iddecl_cauth":     (["new cv=3 sv=3 cauth=1 scb=1", "mrun"], "cv=3 sv=3 cauth=1 scb=1 resume=1 decline=1 seed=3"),
+    "t12_tickdecl":         (["new cv=3 sv=3 ticket=1", "mrun"], "cv=3 sv=3 ticket=1 resume=1 decline=1 seed=3"),
+    "t12_tickdecl_cauth":   (["new cv=3 sv=3 ticket=1 cauth=1 scb=1", "mrun"], "cv=3 sv=3 ticket=1 cauth=1 scb=1 resume=1 decline=1 seed=3"),
+    "t12_resume_id_cauth":  (["new cv=3 sv=3 cauth=1 scb=1", "mrun"], "cv=3 sv=3 cauth=1 scb=1 resume=1 keepkeys=1 seed=3"),
+    "t12_resume_ticket_cauth": (["new cv=3 sv=3 ticket=1 cauth=1 scb=1", "mrun"], "cv=3 sv=3 ticket=1 cauth=1 scb=1 resume=1 keepkeys=1 seed=3"),
+    "d12_iddecl_cauth":     (["new dtls=1 cv=3 sv=3 cauth=1 scb=1", "mrun"], "dtls=1 cv=3 sv=3 cauth=1 scb=1 resume=1 decline=1 seed=3"),
+    "d12_resume_id_cauth":  (["new dtls=1 cv=3 sv=3 cauth=1 scb=1", "mrun"], "dtls=1 cv=3 sv=3 cauth=1 scb=1 resume=1 keepkeys=1 seed=3"),
     # DTLS 1.2 / 1.0 (RFC 6347): AES-GCM suites are re-sealed by the harness; CBC suites leave the protected Finished opaque
     "d12_ecdhe":        ([], "dtls=1 cv=3 sv=3"),
     "d12_cauth":        ([], "dtls=1 cv=3 sv=3 cauth=1 scb=1"),
@@ -89,7 +112,9 @@ LEGAL_ONLY = {"d12_frag", "d12_frag_cauth", "d12c_10s"}        # honest trace (a
 SLOT_TYPE = {1: 12, 2: 13, 3: 15, 4: 4, 5: 13, 6: 4, 7: 2, 8: 1, 9: 1, 10: 2, 11: 3, 12: 1, 13: 1, 14: 2}      # handshake type of the message in each slot
 QUICK = ["t12_ecdhe", "t12_rsa", "t12_cauth", "t12_ticket_issue", "t12_resume_id", "t12_resume_ticket", "t12_psk_cbc",
          "t13", "t13_cauth", "t13_ticket_issue", "t13_resume", "t13_psk", "t13_hrr", "t13c_12s", "t12c_13s", "t12_ocsp",
-         "d12_ecdhe", "d12_cauth", "d12_resume_id", "d12_ticket_issue", "d12_resume_ticket", "d10_cbc", "d12_frag", "d12_frag_cauth"]
+         "d12_ecdhe", "d12_cauth", "d12_resume_id", "d12_ticket_issue", "d12_resume_ticket", "d10_cbc", "d12_frag", "d12_frag_cauth",
+         "t13_pskdecl", "t13_pskdecl_cauth", "t13_pskdecl_cauth_hrr", "t13_tickdecl_cauth", "t13_psk_cauth", "t13_resume_cauth",
+         "t12_iddecl_cauth", "t12_tickdecl_cauth", "t12_resume_id_cauth", "t12_resume_ticket_cauth", "d12_iddecl_cauth"]
 
 # genuine messages of other modes, kept in harness slots (slots survive `new`): slot -> (how to obtain, what it is)
 SLOT_FILL = [
@@ -293,7 +318,7 @@ class Side:
     """what one receiver accepted so far + the mode its hellos negotiated (read off bytes and implementation flags)"""
     def __init__(self, server, cfg_cauth, sent_ticket):
         self.server, self.cfg_cauth, self.sent_ticket = server, cfg_cauth, sent_ticket
-        self.acc, self.items, self.md, self.hrr_seen, self.done_checked, self.opaque, self.flagged = [], [], None, False, False, False, False
+        self.acc, self.items, self.md, self.hrr_seen, self.done_checked, self.opaque, self.flagged, self.declined = [], [], None, False, False, False, False, False
 
     def cfg_token(self, v13, tick):
         return None
@@ -315,12 +340,21 @@ def body_token(st):
             # DTLS ClientHello with an empty cookie (read off the bytes)
             return "NC" if (st.accepted() or err in (None, 10, 100)) else "F"
         v13b, hrrb = st.hb & 1, (st.hb >> 1) & 1
+        # OFFERED (read off the ClientHello bytes: pre_shared_key extension / session id or SessionTicket) vs SELECTED (the
+        # implementation's flags after the hello): an offer that was not selected is the D-hello of the model
+        off13, off12 = (t == CH and bool(st.hb & 8)), (t == CH and bool(st.hb & 16))
         if st.accepted():
             if t == SH and hrrb:
                 return "H13:100"
             if post["v"] == 1:
-                return "H13:%d%d%d" % (1 if (t == CH and post["hs"] == 23 and post["hrr"]) else 0, post["upsk"], post["se"])
-            return "H12:%d%d%d%d%d" % (post["resumed"], post["psk"], post["dhe"], 1 if post["tk"] == 3 else 0, post["sr"])
+                h = 1 if (t == CH and post["hs"] == 23 and post["hrr"]) else 0
+                if off13 and not post["upsk"]:
+                    return "D13:%d" % h
+                return "H13:%d%d%d" % (h, post["upsk"], post["se"])
+            if off12 and not post["resumed"]:
+                return "D12:%d%d" % (post["psk"], post["dhe"])
+            # 4th attribute - ServerHello: the SessionTicket extension is there (RECVD_EXT); ClientHello: the session came from a ticket (USING_TICKET)
+            return "H12:%d%d%d%d%d" % (post["resumed"], post["psk"], post["dhe"], 1 if post["tk"] == (5 if t == CH else 3) else 0, post["sr"])
         if err is not None and err not in (10, 47, 100):
             return "F"
         if pre["v"] == 0 and st.hashed:
@@ -429,14 +463,16 @@ def mode_after_hello(side, st, cfgname):
             side.hrr_seen = True
             return None
         psk = bool(post["upsk"])
+        side.declined = bool(side.server and (st.hb & 8) and not psk)
         return {"v13": True, "server": side.server, "kex": "ecdhe", "cauth": side.server and side.cfg_cauth and not psk,
                 "res": "yes" if psk else "none", "newticket": False, "ocsp": False, "hrr": side.hrr_seen,
-                "early": bool(side.server and post["se"]), "dtls": False}
+                "early": bool(side.server and post["se"]), "dtls": False, "declined": side.declined}
     kex = ("dhepsk" if post["dhe"] else "psk") if post["psk"] else ("ecdhe" if post["dhe"] else "rsa")
+    side.declined = bool(side.server and (st.hb & 16) and not post["resumed"])
     res = "yes" if post["resumed"] else ("maybe" if (not side.server and side.sent_ticket and post["tk"] != 3) else "none")
     return {"v13": False, "server": side.server, "kex": kex, "cauth": side.server and side.cfg_cauth and not post["resumed"], "res": res,
             "newticket": (not side.server) and post["tk"] == 3, "ocsp": (not side.server) and bool(post["sr"]), "hrr": False, "early": False,
-            "dtls": bool(st.pre["dt"])}
+            "dtls": bool(st.pre["dt"]), "declined": side.declined}
 
 
 def run_chunks(ck, h, scripts, meta, chunk=120, workers=4):
@@ -662,6 +698,17 @@ def run(ck):
             tn = NAMES.get(stp.t, str(stp.t))
             pri = (stp.pre["v"], 1 if stp.side == "s" else 0, stp.pre["hs"]) in cellset
             cons.append((pri, " ; ".join(base + ["mtamper %s %d %d omit" % (snd, stp.t, sender_occ(k)), "mrun 60"]), (name, k, "omit:" + tn)))
+            # ... and the next one or two handshake messages of the same sender with it (Certificate + CertificateVerify: the
+            # client-authentication bypass; ServerKeyExchange + CertificateRequest; ...)
+            run = [k]
+            for j in range(k + 1, len(steps)):
+                if steps[j].side != stp.side or steps[j].kind == "C":
+                    continue
+                if steps[j].kind != "H" or steps[j].t == CH or len(run) == 3:
+                    break
+                run.append(j)
+                cons.append((pri, " ; ".join(base + ["mtamper %s %d %d omit" % (snd, steps[i].t, sender_occ(i)) for i in run] + ["mrun 60"]),
+                             (name, k, "omit:" + "+".join(NAMES.get(steps[i].t, str(steps[i].t)) for i in run))))
             for sl in slots_for(d, bool(stp.pre["v"]), isd):
                 sn = NAMES.get(SLOT_TYPE[sl], str(SLOT_TYPE[sl]))
                 cons.append((False, " ; ".join(base + ["mtamper %s %d %d after %d" % (snd, stp.t, sender_occ(k), sl), "mrun 60"]), (name, k, "insert-after-%s:%s(slot%d)" % (tn, sn, sl))))
@@ -781,6 +828,8 @@ def run(ck):
                     side.done_checked = True
                     seq = ",".join(str(x) for x in side.acc)
                     ck.count("completed:" + tag)
+                    if side.md and side.md.get("declined"):
+                        ck.count("completed:after-a-declined-offer(%s%s)" % (tag, ",client-auth" if side.md["cauth"] else ""))
                     if side.opaque:
                         ck.count("completed:not-judged(opaque records)")
                     elif side.md is None or not is_legal(side.md, side.acc):
@@ -843,7 +892,12 @@ def run(ck):
                               "newticket": (not server) and bool(tk), "ocsp": False, "hrr": False, "early": False, "dtls": dtls}
                         hello = "H12:%d%d%d%d0" % (r, p, d, tk)
                     ht = CH if server else SH
-                    for seq in legal_sequences(md):
+                    hello_alts = [(hello, 0)]
+                    if server and ((v13 and not psk) or (not v13 and not r)):
+                        # the same mode reached by a ClientHello whose offer was declined
+                        hello_alts.append((("D13:0" if v13 else "D12:%d%d" % (p, d)), 1))
+                    for hello, dcl in hello_alts:
+                      for seq in legal_sequences(md):
                         for mut in range(3):
                             s2 = list(seq)
                             if mut == 1 and len(s2) > 2:
@@ -869,10 +923,15 @@ def run(ck):
                             # the hello count decides whether the Coq side sees the same mode; only compare when it does
                             nh = sum(1 for t in s2 if t == ht)
                             want_h = 2 if (md["v13"] and md["hrr"]) else 1
-                            lg_expect.append("complete=%d" % (1 if (is_legal(md, s2) and nh == want_h) else 0))
+                            okc = 1 if (is_legal(md, s2) and nh == want_h) else 0
+                            lg_expect.append("complete=%d%s" % (okc, (" declined=%d" % dcl) if okc else ""))
     rc, lg_out, _ = ck.run_lines(drv, lg_cases)
-    ck.correspond("grammar(Python figures vs Coq completeb)", lg_cases, lg_expect, [o.split(" ")[0] for o in lg_out],
-                  nontrivial=lambda c, o: o.endswith("1"))
+    def lg_view(o):
+        c = o.split(" ")[0]
+        m = re.search(r"declined=(\d)", o)
+        return c + ((" declined=" + m.group(1)) if (c.endswith("1") and m) else "")
+    ck.correspond("grammar(Python figures vs Coq completeb; mode: offer declined)", lg_cases, lg_expect, [lg_view(o) for o in lg_out],
+                  nontrivial=lambda c, o: "complete=1" in o)
 
 
 def replay(ck, path):
